@@ -390,9 +390,22 @@ def obligation_smt2(world, ex, ob, unfold_depth=2):
 _AXIOM_MEMO = {}
 
 
+def assumed_axioms(world, ex):
+    if 'ax' not in _AXIOM_MEMO:
+        out = []
+        for name, text, note in contracts.AXIOMS:
+            class _St: pass
+            st = _St(); st.apps = []
+            cx = SpecCtx({}, Heap(), st=st)
+            out.append(ex.S.eval_bool(text, cx))
+            out += cx.facts
+        _AXIOM_MEMO['ax'] = out
+    return _AXIOM_MEMO['ax']
+
+
 def spec_axioms(world, ex, ob):
     """quantified definitions of the recursive spec functions that occur, and the proved lemmas about them"""
-    facts = []
+    facts = list(assumed_axioms(world, ex))
     seen_fns = {}
     for sf, _, _ in ob.apps:
         if sf.recursive and sf.quantified_axiom:
